@@ -2,7 +2,7 @@
 //
 // One history per input line:
 //
-//	scn <udp|tcp> <bw 0|1> <limit> <eplimit> <op> <op> ...
+//	scn <udp|udp@<nstart>|tcp> <bw 0|1> <limit> <eplimit> <op> <op> ...      (udp@<n>: NSTART n instead of "unlimited")
 //	disc <outcome>                                  (udp/server discovery tables, real loopback socket)
 //
 // ops (colon separated):
@@ -578,13 +578,13 @@ func (w *world) answer(tok message.Token) int {
 	return w.respLen[lp.Hex(tok)]
 }
 
-func runUDP(t *testing.T, bw bool, limit, eplimit int64, ops []string) (out string) {
+func runUDP(t *testing.T, nstart uint32, bw bool, limit, eplimit int64, ops []string) (out string) {
 	synctest.Test(t, func(t *testing.T) {
 		w := newWorld(true, bw)
 		cc, s := mem.NewUDPConn(mem.UDPOpts{Blockwise: bw, BlockwiseSZX: blockwise.SZX16, Mutate: func(cfg *udpclient.Config) {
 			cfg.LimitClientParallelRequests = limit
 			cfg.LimitClientEndpointParallelRequests = eplimit
-			cfg.TransmissionNStart = 1000
+			cfg.TransmissionNStart = nstart
 			cfg.GetMID = func() int32 { return 0xffff/2 + 100 }
 			cfg.Handler = func(rw *responsewriter.ResponseWriter[*udpclient.Conn], r *pool.Message) {
 				if r.Code() >= codes.GET && r.Code() <= codes.DELETE {
@@ -780,8 +780,14 @@ func TestC13(t *testing.T) {
 			bw := f[2] == "1"
 			lim, _ := strconv.ParseInt(f[3], 10, 64)
 			ep, _ := strconv.ParseInt(f[4], 10, 64)
-			if f[1] == "udp" {
-				fmt.Fprintln(w, runUDP(t, bw, lim, ep, f[5:]))
+			if strings.HasPrefix(f[1], "udp") {
+				nstart := uint32(1000)
+				if i := strings.Index(f[1], "@"); i >= 0 {
+					if v, err := strconv.Atoi(f[1][i+1:]); err == nil && v > 0 {
+						nstart = uint32(v)
+					}
+				}
+				fmt.Fprintln(w, runUDP(t, nstart, bw, lim, ep, f[5:]))
 			} else {
 				fmt.Fprintln(w, runTCP(t, bw, lim, ep, f[5:]))
 			}
